@@ -82,6 +82,9 @@ def run(ctx, rep):
     for c in sessgen.late_hs_histories(rng, ctx.n(50, 1500)):
         cases.append(c)
         meta.append(("late-handshake-replies", True, None, None))
+    for c in sessgen.reauth_fault_then_recover(rng, ctx.n(40, 600)):
+        cases.append(c)
+        meta.append(("failed-reauthentication", True, None, None))
     res = sess.compare(ctx, rep, cases, tag="retry-recovery")
     for (im, md), c, mt in zip(res, cases, meta):
         now, lan, outcomes, events = im
@@ -121,6 +124,12 @@ def run(ctx, rep):
                 rep.fail("oracle", "exhaustion-not-a-timeout", sess_case(c), {"tx": n, "outcome": out})
             if expect is None and outcomes[k + 1][0] != 0:
                 rep.fail("oracle", "device-level-raised", sess_case(c), {"outcome": outcomes[k + 1]})
+        elif mt[0] == "failed-reauthentication":
+            # one transient fault on the automatic re-handshake fails THAT exchange; the two after it meet a promptly answering
+            # appliance and must succeed with the credentials given at the start
+            ok = [o[0] == 0 and len(o) > 1 for o in outcomes]
+            if not (ok[-1] and ok[-2]):
+                rep.fail("oracle", "no-recovery-after:failed-reauthentication", sess_case(c), {"outcomes": outcomes})
         elif mt[0] == "late-handshake-replies":
             # with cached credentials (histories of 6 operations) at most ONE of the two final exchanges may fail
             if len(c[3]) == 8:
